@@ -14,7 +14,7 @@ RULES = {
 }
 
 
-def run_fragment(ck, ctx, module, label=None, self_attrs=None, **build_kw):
+def run_fragment(ck, ctx, module, label=None, self_attrs=None, only_rules=None, **build_kw):
     mod = importlib.import_module(f"sdpverif.specs.{module}")
     spec, oracle = mod.build(ctx, **build_kw)
     if label:
@@ -25,11 +25,15 @@ def run_fragment(ck, ctx, module, label=None, self_attrs=None, **build_kw):
                             + "; ".join(list(ex.unevaluated)[:3]))
     by_rule = {}
     for (rule, key), f in ex.findings.items():
+        if only_rules is not None and rule not in only_rules:
+            continue
         by_rule.setdefault(rule, []).append(f)
         ck.ob(rule, key, False, f.detail, f"fragment {spec.name}", witness=f.witness)
     counts = {"O-accept": ex.n_trans, "O-segment": ex.n_reductions, "O-value": getattr(oracle, "checked", 0),
               "O-raise": ex.n_actions_evaluated, "O-case": ex.n_trans}
     for rule, text in RULES.items():
+        if only_rules is not None and rule not in only_rules:
+            continue
         if rule not in by_rule:
             ck.ob(rule, f"{spec.name}: all {counts[rule]} instances", True,
                   f"{text} ({counts[rule]} instances in {ex.n_configs} configurations)", f"fragment {spec.name}")
